@@ -44,6 +44,20 @@ def close(a, b, ulps=8):
     return bool(np.all(ok | (np.isnan(a) & np.isnan(b)) | (a == b)))
 
 
+def rate_close(got, want, rf, t):
+    """A difference quotient of recovery: any algebraically equivalent form differs by rounding of rf divided by the step,
+    i.e. a few eps (|rf_i| + |rf_i+1|) / min(h) - not by a relative 1e-12 of the (possibly tiny) rate itself."""
+    if got.shape != want.shape:
+        return False
+    h = np.diff(t)
+    hmin = np.minimum(np.concatenate([[h[0]], h]), np.concatenate([h, [h[-1]]]))
+    scale = np.abs(rf) + np.concatenate([np.abs(rf[1:]), [abs(rf[-1])]]) + np.concatenate([[abs(rf[0])], np.abs(rf[:-1])])
+    with np.errstate(all="ignore"):
+        tol = 16 * np.finfo(float).eps * scale / np.where(hmin > 0, hmin, np.inf) + 1e-12 * np.abs(want)
+        ok = (np.abs(got - want) <= tol) | (np.isnan(got) & np.isnan(want)) | (got == want)
+    return bool(np.all(ok))
+
+
 def eval_profiles(case):
     import matplotlib.pyplot as plt  # noqa: PLC0415
 
@@ -118,7 +132,7 @@ def eval_recovery(case):
             if len(got) != 1:
                 viol.append(V(f"recovery-{kind}/count", f"{len(got)} curves drawn, expected 1", case=case))
             elif not (same(got[0][0], t) and (same(got[0][1], np.asarray(wy, dtype=float)) if kind == "factor"
-                                              else np.allclose(got[0][1], wy, rtol=1e-12, atol=1e-14 * np.nanmax(np.abs(wy)), equal_nan=True))):
+                                              else rate_close(got[0][1], np.asarray(wy, dtype=float), rf, t))):
                 viol.append(V(f"recovery-{kind}/data", f"the drawn curve is not (scaled time, "
                               f"{'recovery factor' if kind == 'factor' else 'time derivative of recovery'})", case=case))
             if kind == "factor" and out.get_xscale() != "squareroot":
@@ -147,10 +161,15 @@ def eval_comparison(case):
     if case.get("days") == "irregular":  # gapped reporting that does not start at day 0
         days = 30.0 + np.cumsum(1.0 + (np.arange(n) % 5 == 0) * 2.0)
     prod = pd.DataFrame({"Days": days, "Gas": gas, "Pressure": press})
-    prm = Parameters()
-    prm.add("M", M)
-    prm.add("tau", tau)
-    prm.add("p_initial", p_i)
+    prm = Parameters()  # as returned by a fit: the current value is not the initial value
+    prm.add("M", 0.9 * M)
+    prm.add("tau", 1.3 * tau)
+    prm.add("p_initial", p_i + 250.0)
+    prm["M"].value, prm["tau"].value, prm["p_initial"].value = M, tau, p_i
+    if case.get("index") == "offset":     # a slice of a longer history: labels 100, 101, ...
+        prod.index = np.arange(n) + 100
+    elif case.get("index") == "dup":      # two files concatenated
+        prod.index = np.concatenate([np.arange(n // 2), np.arange(n - n // 2)])
     viol = []
     with warnings.catch_warnings():
         warnings.simplefilter("ignore")
@@ -287,6 +306,8 @@ def cases(tier, seed):
         out.append({"kind": "comparison", "tau": tau, "M": M, "filter": flt, "window": w})
         if w is None:
             out.append({"kind": "comparison", "tau": tau, "M": M, "filter": flt, "window": w, "days": "irregular"})
+            if tau == 25.0 and M == 1300.0:
+                out += [{"kind": "comparison", "tau": tau, "M": M, "filter": flt, "window": w, "index": ix} for ix in ("offset", "dup")]
     vals = [0.0, 5e-324, 1e-300, 1e-8, 0.25, 1.0, 2.0, 1e8, 1e300]
     out.append({"kind": "transform", "dtype": "f8", "values": vals})
     out.append({"kind": "transform", "dtype": "f4", "values": [0.0, 1e-30, 1e-8, 0.25, 1.0, 2.0, 1e8, 1e30]})
